@@ -462,6 +462,16 @@ func TestC17HandlerLayouts(t *testing.T) {
 				proof, backing := layProof(items, l)
 				before := snapshot(backing)
 				msg := w.claim(i, proof)
+				if (int(l)+i)%2 == 1 {
+					// the message's other byte fields are consecutive sub-slices of one buffer (version | block hash |
+					// storage root | unrelated data), each with capacity running to the end of it
+					arena := make([]byte, 0, 1+32+32+16)
+					arena = append(append(append(arena, msg.Version...), msg.LastBlockHash...), msg.StorageRoot...)
+					arena = append(arena, bytes.Repeat([]byte{0x5A}, 16)...)
+					msg.Version, msg.LastBlockHash, msg.StorageRoot = arena[0:1], arena[1:33], arena[33:65]
+					backing = append(backing, arena[:cap(arena)])
+					before = snapshot(backing)
+				}
 				sr, bh := append([]byte{}, msg.StorageRoot...), append([]byte{}, msg.LastBlockHash...)
 				cctx, _ := w.e.Ctx.CacheContext()
 				saved := w.e.Ctx
